@@ -15,7 +15,7 @@ def run(tier, replay):
             jobs = [["tamper", 2, 40, 1, 0, 0], ["keys", 2, 30, 2, 1, 8], ["garbage", 2, 60], ["crash", 2, 40, 3, 2, 1], ["tamper", 1, 20, 0, 2, 0]]
         else:
             jobs = [["tamper", T, n, (n + T) % 5, n % 3, 1] for T in (1, 2, 4) for n in (0, 33, 70)] + [["keys", T, 50, T, T % 3, 64] for T in (1, 2, 4)] + \
-                   [["garbage", T, 2000] for T in (1, 2, 4, 16)] + [["crash", 2, n, n % 5, n % 3, u] for n in (0, 20, 40, 70) for u in (0, 1)]
+                   [["garbage", T, 6000] for T in (1, 2, 4, 16)] + [["crash", 2, n, n % 5, n % 3, u] for n in (0, 20, 40, 70) for u in (0, 1)]
         events = fl.collect(res, PID, jobs)
     st, nfull = fl.judge(res, PID, events, only=ONLY)
     ops = [e for e in events if e["e"] == "op"]
